@@ -35,13 +35,16 @@ Proof. exact collect_keys_first_occurrence. Qed.
 Print Assumptions C04_keys_first_occurrence.
 
 (* Errors and nulls: in every result no two errors carry the same path, and
-   the data at the path of every error is null. *)
+   the data is null at the path of every error or already at a prefix of it
+   (null_on_path; the prefix case only occurs below a field that was nulled
+   because a sub-selection could not be collected, see
+   C04_collect_failure_is_local). *)
 Theorem C04_null_error_bijection :
   forall sch frags vs coerce_args world tyres cfuel fuel tname v p sels d es,
     schema_nn_ok sch ->
     exec_sel sch frags vs coerce_args world tyres cfuel fuel tname v p sels = Ok (d, es) ->
     NoDup (map e_path es) /\
-    Forall (fun e => exists q, e_path e = p ++ q /\ at_path d q = Some PNone) es.
+    Forall (fun e => exists q, e_path e = p ++ q /\ null_on_path d q) es.
 Proof. exact exec_sel_errors_nulls. Qed.
 Print Assumptions C04_null_error_bijection.
 
@@ -77,10 +80,36 @@ Proof.
 Qed.
 Print Assumptions C04_failure_is_local_null.
 
+(* Third failure kind (since /repo 5d4e174): invalid @skip / @include
+   arguments met while collecting fields. Nested: when completing a field's
+   value is rejected (which only a failing collect of a sub-selection causes),
+   the field is null with exactly one more error, at the field's path, and the
+   errors recorded before by completed list items remain, strictly below that
+   path. Root: a selection set is rejected exactly when collecting its own
+   fields is (the request is aborted, no data). *)
+Theorem C04_collect_failure_is_local :
+  (forall sch tyres sub_exec nodes t p v k q,
+      (forall tn x p' ss k' q', sub_exec tn x p' ss = Rejected k' q' -> k' = REJ_COERCION) ->
+      nn_ok t = true ->
+      (forall tn x p' sels r, sub_exec tn x p' sels = Ok r -> wf_res p' r /\ fst r <> PNone) ->
+      complete_value sch tyres sub_exec nodes t p v = Rejected k q ->
+      complete_field sch tyres sub_exec nodes t p v =
+        Ok (PNone, complete_value_partial sch tyres sub_exec nodes t p v ++ [Err p [] ECoercion]) /\
+      Forall (below p) (complete_value_partial sch tyres sub_exec nodes t p v)) /\
+  (forall sch frags vs coerce_args world tyres cfuel fuel tname v p sels k q,
+      (exec_sel sch frags vs coerce_args world tyres cfuel fuel tname v p sels = Rejected k q ->
+       collect_for sch frags vs cfuel tname sels = Rejected k q /\ k = REJ_COERCION) /\
+      (collect_for sch frags vs cfuel tname sels = Rejected k q ->
+       exec_sel sch frags vs coerce_args world tyres cfuel (S fuel) tname v p sels = Rejected k q)).
+Proof. split; [exact subselection_abort_local|exact root_collect_rejection]. Qed.
+Print Assumptions C04_collect_failure_is_local.
+
 (* Siblings undisturbed: two resolver worlds that agree everywhere except at
    or below the response path q0 give results that agree everywhere except at
    or below q0 -- same keys in the same order, same list lengths, equal values
-   off the path, and the same errors off the path (in the same order). *)
+   off the path, and the same errors off the path (in the same order). For
+   runs in which no sub-selection failed to collect (no_abort: no error of
+   kind coercion with an empty location list). *)
 Theorem C04_error_locality :
   forall sch frags vs coerce_args tyres cfuel w1 w2 q0,
     schema_nn_ok sch ->
@@ -88,6 +117,7 @@ Theorem C04_error_locality :
     forall fuel tname v sels d1 es1 d2 es2,
       exec_sel sch frags vs coerce_args w1 tyres cfuel fuel tname v [] sels = Ok (d1, es1) ->
       exec_sel sch frags vs coerce_args w2 tyres cfuel fuel tname v [] sels = Ok (d2, es2) ->
+      no_abort es1 -> no_abort es2 ->
       same_outside q0 d1 d2 /\ errors_off q0 es1 = errors_off q0 es2.
 Proof. exact exec_sel_locality. Qed.
 Print Assumptions C04_error_locality.
@@ -210,6 +240,7 @@ Theorem C04_exec_eq_spec_full_acyclic :
     acyclic frags rank ->
     forall fuel tname v p sels r,
       exec_sel sch frags vs coerce_args world tyres cfuel fuel tname v p sels = Ok r ->
+      no_abort (snd r) ->
       exists es',
         SSel sch coerce_args world tyres (fun tn ss g => SCollect (applies sch tn) frags vs ss g)
              tname v p sels (fst r) es' /\
@@ -308,3 +339,18 @@ Proof.
   - inversion H; subst. vm_compute in Hm. destruct Hm as [<-|[]]. vm_compute. lia.
   - destruct (str_eqb n (ex_s "G")); [|discriminate]. inversion H; subst. vm_compute in Hm. destruct Hm.
 Qed.
+
+(* a sub-selection whose @skip argument is a null variable: the enclosing
+   field is null with one coercion error at its path; on the root selection
+   set the request is rejected *)
+Example C04_example_collect_failure :
+  let skip_s := Dir (Name (ex_s "skip") None)
+                    [Arg (Name (ex_s "if") None) (VVar (Name (ex_s "s") None) None) None] None in
+  let bad := SField None (Name (ex_s "s") None) [] [skip_s] None [] None in
+  exec_sel ex_schema [] [(ex_s "s", PNone)] (fun _ _ => Ok []) (ex_world false) (fun _ => None) 50 10
+           (ex_s "Query") PNone [] [ex_field "t" [bad]; ex_field "l" []] =
+    Ok (PDict [(ex_s "t", PNone); (ex_s "l", PList [PInt 1; PNone])],
+        [Err [PKey (ex_s "t")] [] ECoercion; Err [PKey (ex_s "l"); PIdx 1] [None] ENonNull]) /\
+  exec_sel ex_schema [] [(ex_s "s", PNone)] (fun _ _ => Ok []) (ex_world false) (fun _ => None) 50 10
+           (ex_s "Query") PNone [] [bad] = Rejected REJ_COERCION 0.
+Proof. vm_compute. split; reflexivity. Qed.
